@@ -2,6 +2,7 @@ package checks
 
 import (
 	"fmt"
+	"sort"
 	"strings"
 
 	"verif.local/pvmon/internal/h"
@@ -19,7 +20,7 @@ type constDef struct {
 	at      int      // index of the first top-level item that may use it
 }
 
-var constValuePool = [][]string{{"3"}, {"ITEM_NONE"}, {"0x00ff"}, {"VAR_TEMP_1"}, {"FLAG_HIDE", "+", "1"}, {"0x4001"}, {"(", "2", "*", "3", ")"}, {"ITEM_FOO"}, {"-1"}, {"TRAINER_X"}, {"LOCALID_NPC"}, {"A_B", "C_D"}}
+var constValuePool = [][]string{{"3"}, {"FLAG_TEMP_1", "+", "3", "-", "FLAG_BASE"}, {"A", "+", "B", "+", "C", "+", "D"}, {"VAR_X", "*", "2", "+", "OFFSET", "-", "1"}, {"ITEM_NONE"}, {"0x00ff"}, {"VAR_TEMP_1"}, {"FLAG_HIDE", "+", "1"}, {"0x4001"}, {"(", "2", "*", "3", ")"}, {"ITEM_FOO"}, {"-1"}, {"TRAINER_X"}, {"LOCALID_NPC"}, {"A_B", "C_D"}}
 
 func isIdentTok(s string) bool {
 	if s == "" {
@@ -45,7 +46,7 @@ func injectConsts(k *h.Case, g *spec.Gen, prog *spec.Program) []*constDef {
 		d := &constDef{name: g.Name("CONST_")}
 		v := constValuePool[r.IntN(len(constValuePool))]
 		d.value = append([]string{}, v...)
-		if len(defs) > 0 && r.IntN(3) == 0 {
+		if len(defs) > 0 && r.IntN(2) == 0 {
 			// defined from an earlier constant
 			e := defs[r.IntN(len(defs))]
 			switch r.IntN(3) {
@@ -249,6 +250,21 @@ func addDecoys(k *h.Case, g *spec.Gen, prog *spec.Program, defs []*constDef) {
 	for _, it := range prog.Items {
 		if s, ok := it.(*spec.Script); ok {
 			scripts = append(scripts, s)
+		}
+	}
+	// a constant whose NAME is the result var configured for an AutoVar command: the compared var comes
+	// from the command config, not from a source token, so it is not substituted
+	var avNames []string
+	for name := range prog.AutoVars {
+		avNames = append(avNames, name)
+	}
+	sort.Strings(avNames)
+	for _, name := range avNames {
+		av := prog.AutoVars[name]
+		if av.ArgPos < 0 && r.IntN(2) == 0 {
+			prog.Items = append([]spec.Item{&spec.Const{ID: prog.NewID(), Name: av.VarName, Value: []string{"VAR_TEMP_9"}}}, prog.Items...)
+			k.Count("decoy_autovar_result_var", 1)
+			break
 		}
 	}
 	roles := r.Perm(10)
